@@ -206,6 +206,31 @@ PROPS = {
         trusted_base=['kernel tick and coroutines are modelled by hand (Model/System, Model/Coroutines) and tied by sysdiff, which compares the response events of every step',
                       'in sysdiff clients are serialised and the AIO queues are harness-owned; the real aio glue, worker goroutines and concurrent clients are exercised by stackrun only (sampled schedules, no proof)'],
     ),
+    'C13': dict(
+        modules=['Resonate.Properties.C13'],
+        tie_filter=r'shape|wiring|uniques|Insert_row|_where',
+        harness=[dict(bin='frontdiff', name='frontdiff', quick=['-facts', '{gen}/gofacts.json'], thorough=['-facts', '{gen}/gofacts.json'], search=['-facts', '{gen}/gofacts.json']),
+                 sysdiff('sysdiff-hostile', None, (20, 120), (500, 150), 'C01,C05,C08', ['-routed', '50', '-hostile', '-fail', '10', '-crash', '2', '-known', 'F5'], (150, 150)),
+                 dict(bin='routesend', name='routesend', quick=['-cases', '2000'], thorough=['-cases', '20000'], search=['-cases', '6000'])],
+        rule='frontdiff malformed family: 80 malformed requests over every endpoint of both protocols (fields absent, empty, null, negative, huge, wrongly typed, truncated JSON, '
+             'unclosed templates, bogus cron, self-referencing callback, and search cursors FORGED with the constant signing key carrying null / empty id / limit 0 / negative limit) '
+             'against the real gin and grpc servers over a stub kernel, each in a child process: the request must be refused with a client error without reaching the kernel, or the '
+             'kernel must receive a request on which the Lean predicate C13.ValidReq (evaluated by the model driver) is true; a 5xx, a dropped reply or a dead process is a violation; '
+             'plus the exhaustive status / shape cases of C15. sysdiff-hostile: all 17 request kinds with hostile pools (markup and separators in ids, unclosed id templates, JSON '
+             'literals as routing tags) against the real kernel, coroutines, router and store, with enough background cycles for the stored data to be timed out, routed, dispatched and '
+             'fired, before and after crash/restart steps; the model predicts every assertion of the implementation (a predicted panic is a violation). routesend: every shape of '
+             'routing tag and stored receiver through the real router, sender and http plugin (a panic is a violation).',
+        assumptions=['ticks are non-decreasing between two steps of one coroutine (a wall clock stepping backwards between the read and the continuation of TimeoutPromises / SchedulePromises '
+                     'would reach their elapsed-time assertions: recorded as observation O3, not claimed as a finding)',
+                     'unique keys and legal promise states in the database (Keys): established for promise ids and lock resources by PromIds / LockUnique over all runs; schedule / task ids '
+                     'and the invocation-task-has-its-promise invariant are hypotheses of the theorem',
+                     'completions answer the submissions (C06.store_completion_is_truthful proves it for store results inside the kernel model)'],
+        trusted_base=['the composition of the per-coroutine theorem with the kernel model into `halted = none for every run` is NOT mechanised: it is covered by sysdiff, whose model side '
+                      'predicts every assertion before the implementation executes the step',
+                      'translate/gofacts site inventory (Generated/Sites.lean, pinned): every util.Assert / panic site of the coroutine and kernel packages is listed; the model\'s `.panic` '
+                      'leaves were written from that list by hand',
+                      'front-end validation is not modelled: frontdiff ties it to ValidReq on the malformed pool only'],
+    ),
     'C14': dict(
         modules=['Resonate.Properties.C14'],
         tie_filter=r'(promise|schedule)(Search|Insert|Update|Delete|Select)|shape|wiring|uniques',
